@@ -55,7 +55,7 @@ pub fn gen(rng: &mut Prng) -> Cfg {
         }
         script.push(v);
     }
-    Cfg { n, fail_thr: if defaults { 2 } else { rng.range(1, 4) as u32 }, succ_thr: if defaults { 1 } else { rng.range(1, 4) as u32 }, defaults, strategy: rng.below(6) as u8, ticks, script, huge_timeout: rng.chance(0.06) }
+    Cfg { n, fail_thr: if defaults { 2 } else { rng.range(1, 4) as u32 }, succ_thr: if defaults { 1 } else { rng.range(1, 4) as u32 }, defaults, strategy: rng.below(7) as u8, ticks, script, huge_timeout: rng.chance(0.06) }
 }
 
 fn st(s: HealthStatus) -> u8 {
@@ -128,6 +128,8 @@ pub fn run(cfg: &Cfg, seed: u64) -> (Arc<World>, Vec<Obs>, Vec<usize>) {
             2 => SelectionStrategy::PreferHealthy,
             3 => SelectionStrategy::Custom(Arc::new(|s: &[HealthStatus]| s.iter().rposition(|x| x.is_usable()))),
             5 => SelectionStrategy::Random,
+            // a custom selector that trusts what it is given: the first candidate
+            6 => SelectionStrategy::Custom(Arc::new(|s: &[HealthStatus]| if s.is_empty() { None } else { Some(0) })),
             _ => SelectionStrategy::Custom(Arc::new(|s: &[HealthStatus]| if s.len() % 2 == 0 { None } else { Some(0) })),
         });
         let wrapper = b.build();
@@ -216,7 +218,7 @@ pub fn judge(cfg: &Cfg, obs: &[Obs]) -> Report {
     let mut s = vec![0u32; cfg.n];
     let mut flips = 0u64;
     let mut timeouts = 0u64;
-    let strat = ["first", "round-robin", "prefer-healthy", "custom-last", "custom-none", "random"][cfg.strategy as usize];
+    let strat = ["first", "round-robin", "prefer-healthy", "custom-last", "custom-none", "random", "custom-first-candidate"][cfg.strategy as usize];
     'outer: for o in obs {
         for r in 0..cfg.n {
             let res = cfg.script[r][o.tick];
@@ -284,7 +286,7 @@ pub fn judge(cfg: &Cfg, obs: &[Obs]) -> Report {
                     got.push(*r);
                 }
                 None => {
-                    if !elig.is_empty() && (cfg.strategy <= 2 || cfg.strategy == 5) {
+                    if !elig.is_empty() && (cfg.strategy <= 2 || cfg.strategy >= 5) {
                         rep.violate(format!("C18:{strat}:{name}-returned-none"), format!("tick {}: {name} returned nothing although {:?} qualify", o.tick, elig));
                     }
                 }
